@@ -173,12 +173,19 @@ def bounds_rule(R, oid, qual, length_vars, sink_kinds):
                 if 'arg' in sink_kinds and isinstance(x, ast.Call) and callee_attr(x) in ('parse_from', 'parse_value'):
                     if any(isinstance(a, ast.Name) and a.id == var for a in x.args):
                         sinks.append((n, x, 'length argument of ' + callee_attr(x)))
-        # bounds tests: ordering / inequality comparison mentioning a derived var whose failing edge raises
+        # length counters that were themselves compared (raising) with the size of the buffer
+        validated = set()
+        for t in cx.cfg.nodes:
+            if t.kind == 'test' and isinstance(t.ast, ast.Compare) and len(t.ast.ops) == 1 and 'len(' in ast.unparse(t.ast) \
+                    and isinstance(t.ast.ops[0], (ast.Lt, ast.LtE, ast.Gt, ast.GtE, ast.NotEq)) and (_raises(cx, t, True) or _raises(cx, t, False)):
+                validated |= {y.id for y in ast.walk(t.ast) if isinstance(y, ast.Name) and y.id in length_vars}
+        # bounds tests: ordering / inequality comparison mentioning a derived var whose failing edge raises; the other side is the
+        # buffer size or a validated length counter
         good_edges = set()
         for t in cx.cfg.nodes:
             if t.kind == 'test' and isinstance(t.ast, ast.Compare) and len(t.ast.ops) == 1 and isinstance(t.ast.ops[0], (ast.Lt, ast.LtE, ast.Gt, ast.GtE, ast.NotEq)) \
                     and any(isinstance(y, ast.Name) and y.id in derived for y in ast.walk(t.ast)) \
-                    and ('len(' in ast.unparse(t.ast) or any(isinstance(y, ast.Name) and y.id in length_vars for y in ast.walk(t.ast))):
+                    and ('len(' in ast.unparse(t.ast) or any(isinstance(y, ast.Name) and y.id in validated and y.id != var for y in ast.walk(t.ast))):
                 for lab in (True, False):
                     if raising_edge(cx, t, lab, None, P) if False else _raises(cx, t, lab):
                         good_edges.add((t.id, not lab))
